@@ -20,6 +20,8 @@ trait PairDyn {
     fn finish(self: Box<Self>, rep: &mut Report);
     /// (start, bytes, what) of every block this pair currently claims in the arena
     fn extents(&self, out: &mut Vec<(usize, usize, &'static str)>);
+    /// bytes of the vector's buffer, or of the buffer it had before the last op if it has none now
+    fn cap_bytes(&self) -> usize;
 }
 impl<'b, T: El> PairDyn for Pair<'b, T> {
     fn step(&mut self, rng: &mut Rng, rep: &mut Report) -> u64 {
@@ -42,6 +44,14 @@ impl<'b, T: El> PairDyn for Pair<'b, T> {
     }
     fn finish(self: Box<Self>, rep: &mut Report) {
         Pair::finish(*self, rep)
+    }
+    fn cap_bytes(&self) -> usize {
+        let c = self.bv.capacity().saturating_mul(std::mem::size_of::<T>());
+        if c > 0 && c < 4096 {
+            c
+        } else {
+            self.last_cap_bytes.min(4095)
+        }
     }
     fn extents(&self, out: &mut Vec<(usize, usize, &'static str)>) {
         let sz = std::mem::size_of::<T>();
@@ -95,7 +105,10 @@ pub fn run(args: &Args, rep: &mut Report) {
                 rep.ctx = format!("vecdiff program {} op {} (seed {} shard {})", it, opi, args.seed, args.shard);
                 match rng.below(12) {
                     0 => {
-                        let n = rng.range(1, 40);
+                        // a raw neighbour; every third one has exactly the size of some vector's (present or
+                        // just released) buffer, so that it can land on an address a vector used to own
+                        let same = if rng.chance(1, 3) { pairs[rng.below(pairs.len())].cap_bytes() } else { 0 };
+                        let n = if same > 0 { same } else { rng.range(1, 40) };
                         let byte = rng.below(250) as u8 + 1;
                         let s = b.alloc_slice_fill_copy(n, byte);
                         canaries.push((s.as_ptr(), n, byte));
